@@ -188,3 +188,66 @@ func (c *Ctx) EveryPath(f *FuncInfo, n ast.Node, pred func([]Fact) bool) (holds,
 }
 
 var _ = token.NoPos
+
+// IterationBypass decides, on the CFG, whether one iteration of loop (a ForStmt or RangeStmt in f)
+// can run from the start of the loop body to the loop's back edge without executing a node for
+// which isCheck holds. checks is the number of CFG nodes in the loop body that satisfy isCheck;
+// decided is false when the loop's blocks could not be identified.
+func (c *Ctx) IterationBypass(f *FuncInfo, loop ast.Stmt, isCheck func(ast.Node) bool) (bypass bool, checks int, decided bool) {
+	bc := c.cfgOf(f, c.enclosingBody(f, loop))
+	var entry *cfg.Block
+	head := map[*cfg.Block]bool{}
+	for _, b := range bc.g.Blocks {
+		if b.Stmt != loop {
+			continue
+		}
+		switch b.Kind {
+		case cfg.KindForBody, cfg.KindRangeBody:
+			entry = b
+		case cfg.KindForPost, cfg.KindForLoop, cfg.KindRangeLoop:
+			head[b] = true
+		}
+	}
+	if entry == nil || len(head) == 0 {
+		return false, 0, false
+	}
+	has := func(b *cfg.Block) bool {
+		found := false
+		for _, n := range b.Nodes {
+			ast.Inspect(n, func(x ast.Node) bool {
+				if x == nil || found {
+					return false
+				}
+				if _, isLit := x.(*ast.FuncLit); isLit {
+					return false
+				}
+				if isCheck(x) {
+					found = true
+				}
+				return !found
+			})
+		}
+		return found
+	}
+	seen := map[*cfg.Block]bool{}
+	var walk func(b *cfg.Block)
+	walk = func(b *cfg.Block) {
+		if seen[b] || bypass {
+			return
+		}
+		seen[b] = true
+		if head[b] {
+			bypass = true
+			return
+		}
+		if has(b) {
+			checks++
+			return
+		}
+		for _, s := range b.Succs {
+			walk(s)
+		}
+	}
+	walk(entry)
+	return bypass, checks, true
+}
